@@ -147,8 +147,8 @@ def grep_forbidden():
     return bad
 
 
-def coq_build(clean=False, timeout=3000):
-    """Full .vo build of the development (incremental unless clean). Returns (ok, log, secs)."""
+def coq_build(clean=False, timeout=3000, target=None):
+    """.vo build of the development, or of one target and its dependency cone (incremental unless clean)."""
     with Lock("coq"):
         t0 = time.time()
         if clean:
@@ -163,7 +163,7 @@ def coq_build(clean=False, timeout=3000):
             rc, out, _ = sh("coq_makefile -f _CoqProject -o Makefile.coq", cwd=COQ)
             if rc != 0:
                 return False, out, time.time() - t0
-        rc, out, _ = sh("timeout %d make -k -f Makefile.coq -j16 2>&1" % timeout, cwd=COQ, timeout=timeout + 30)
+        rc, out, _ = sh("timeout %d make -k -f Makefile.coq -j16 %s 2>&1" % (timeout, target or ""), cwd=COQ, timeout=timeout + 30)
         if rc != 0:
             # never leave a stale .vo behind for a file that no longer compiles: anything that depends
             # on it must fail too
@@ -243,8 +243,22 @@ def proof_step(prop, tier):
          "log_tail": "", "forbidden": []}
     bad = grep_forbidden()
     r["forbidden"] = ["%s:%d: %s" % b for b in bad]
-    ok, log, _ = coq_build(clean=(tier == "thorough" and os.environ.get("VERIF_NO_CLEAN") != "1"
-                                  and os.environ.get("VERIF_CLEAN_DONE") != tree_hash()))
+    # quick: the dependency cone of this property's theorems; thorough: the whole development from clean
+    thorough_full = (tier == "thorough" and os.environ.get("VERIF_NO_CLEAN") != "1")
+    if thorough_full:
+        # one clean rebuild per state of (/repo tree, Coq sources); later thorough checks reuse it
+        h = hashlib.sha256((tree_hash() + "".join(open(f).read() for f in coq_sources()
+                                                  if "/Gen/" not in f)).encode()).hexdigest()[:16]
+        marker = os.path.join(WORK, "clean_build_" + h)
+        if os.path.exists(marker):
+            thorough_full = False
+        else:
+            for f in glob.glob(os.path.join(WORK, "clean_build_*")):
+                os.unlink(f)
+            r["clean_rebuild"] = True
+    ok, log, _ = coq_build(clean=thorough_full, target=None if (thorough_full or tier == "thorough") else "theories/Props/%s.vo" % prop)
+    if r.get("clean_rebuild") and ok:
+        open(marker, "w").write(time.strftime("%F %T"))
     thms = props_theorems(prop)
     r["theorems"] = thms
     r["obligations"] = len(thms)
